@@ -22,7 +22,7 @@ func vC15Docs(k int) (JsonNode, JsonNode) {
 
 // VerifC15History: read-only API calls, in any order, leave documents and diffs untouched.
 func VerifC15History() {
-	k := [...]int{optNone, optMerge}[vChoice(2)]
+	k := [...]int{optNone, optMerge, optSet, optMultiset}[vChoice(vParam("OPTN", 2))]
 	opts := vOptions(k)
 	a, b := vC15Docs(k)
 	if vKnown("hash.alias") {
@@ -46,7 +46,8 @@ func VerifC15History() {
 			_, _ = d1.RenderMerge()
 		case 4:
 			_ = a.Json()
-			_ = b.Json()
+			_ = b.Json(opts...)
+			_ = a.Yaml()
 			_ = a.Equals(b, opts...)
 		default:
 			_ = a.Diff(b, opts...)
